@@ -344,7 +344,7 @@ const int kNOps = (int)(sizeof(kOps) / sizeof(kOps[0]));
 bool in_family(int op) {
     static const std::vector<bool> pick = [] {
         std::vector<bool> v((size_t)kNOps, true);
-        static const struct { const char *id; std::initializer_list<const char *> words; } tab[] = {
+        static const struct { const char *id; const char *words[16]; } tab[] = {      // unused slots are null
             {"C01", {"utf", "latin", "wchar", "from_", "to_std", "u16string", "u32string", "wstring", "char16_t", "char32_t", "wchar_t"}},
             {"C02", {"utf", "latin", "wchar", "from_", "char16_t", "char32_t", "wchar_t"}}, {"C03", {"utf", "latin", "wchar", "from_", "to_std", "char16_t", "char32_t", "wchar_t"}},
             {"C04", {"T = ", "T +=", "copy", "substr", "left", "right", "trim", "upper", "lower", "replace", "split", "operator+", "to_utf", "fill"}},
@@ -356,7 +356,7 @@ bool in_family(int op) {
         const char *e = getenv("VERIF_FAMILY");
         if (!e) return v;
         for (const auto &t : tab) if (!strcmp(e, t.id)) {
-            for (int i = 0; i < kNOps; i++) { bool hit = false; for (const char *w : t.words) if (strstr(kOps[i].name, w)) hit = true; v[(size_t)i] = hit; }
+            for (int i = 0; i < kNOps; i++) { bool hit = false; for (const char *w : t.words) if (w && strstr(kOps[i].name, w)) hit = true; v[(size_t)i] = hit; }
         }
         return v;
     }();
